@@ -81,6 +81,27 @@ func c04Scripted() *Scenario {
 		Ops: []OpSpec{ins(1, 1, 2, 3), ins(2, 4), ins(3, 5), ins(4, 6, 7), ins(5, 8), ins(6, 1, 2)}}
 }
 
+// c04BigState: block 1 creates a contract whose init code writes thousands of storage slots, so the trie commit of its
+// state (archive: inside WriteBlockWithState; pruning: inside Stop) writes several hundred
+// KiB and is split over several batch flushes (aquadb.IdealBatchSize = 100 KiB): the crash
+// points BETWEEN those flushes are where "children before parents" matters.
+func c04BigState() *Scenario {
+	fan := 4000
+	if v, err := strconv.Atoi(os.Getenv("C04_FAN")); err == nil && v > 0 {
+		fan = v
+	}
+	return &Scenario{Name: "c04-big-state",
+		Nodes: []NodeSpec{{}, {Parent: 0, Diff: 100, Valid: true, Fan: fan}, {Parent: 1, Diff: 100, Valid: true, Fan: 30}, {Parent: 2, Diff: 100, Valid: true}},
+		Ops:   []OpSpec{{Sess: "f", Kind: "insert", Nodes: []int{1}, Seed: 1}, {Sess: "f", Kind: "insert", Nodes: []int{2, 3}, Seed: 2}}}
+}
+
+// c04Short: a short import with a shorter-but-heavier reorganisation, for the exhaustive failing-write sweep.
+func c04Short() *Scenario {
+	return &Scenario{Name: "c04-short",
+		Nodes: []NodeSpec{{}, {Parent: 0, Diff: 100, Valid: true, Txs: []TxSpec{{0, 0}}}, {Parent: 1, Diff: 100, Valid: true}, {Parent: 0, Diff: 250, Valid: true, Txs: []TxSpec{{1, 0}}}},
+		Ops:   []OpSpec{{Sess: "f", Kind: "insert", Nodes: []int{1, 2}, Seed: 1}, {Sess: "f", Kind: "insert", Nodes: []int{3}, Seed: 2}}}
+}
+
 // c04LongChain: n linear blocks and a heavier fork of 6 blocks starting 5 below the top.
 func c04LongChain(rng *vh.RNG, n int) *Scenario {
 	sc := &Scenario{Name: fmt.Sprintf("c04-long%d", n), Nodes: []NodeSpec{{}}}
@@ -247,6 +268,7 @@ type c04Run struct {
 	log                                        *c04Log
 	fixTd                                      string // total difficulty (from the tree spec) of the head that repeated feeding of the history converges to
 	nreopen, nconv, nclosure, nKnownA, nKnownB int
+	nnodes                                     int
 	msid                                       string // model session replaying the same history (archive, model attached)
 }
 
@@ -445,6 +467,13 @@ func (r *c04Run) checkPrefix(L []Rec, opOf []int, p int, o prefixOpts) string {
 			}
 		}
 	}
+	if o.closure {
+		n, err := nodeClosure(d)
+		r.nnodes += n
+		if err != nil {
+			bad("trie-node-closure-broken/"+tag, "a trie node is on disk before one of its children (commit must write children before parents): "+err.Error(), nil)
+		}
+	}
 	// expected head
 	want := lastHB
 	if r.cfg != "archive" && want >= 0 {
@@ -632,6 +661,7 @@ func c04RunScenario(c *vh.Ctx, sc *Scenario, cfg string, plan c04Plan, jobDir st
 	c.Res.Distribution["reopenings"] += r.nreopen
 	c.Res.Distribution["reimports-to-convergence"] += r.nconv
 	c.Res.Distribution["closure-roots-iterated"] += r.nclosure
+	c.Res.Distribution["closure-trie-nodes-checked"] += r.nnodes
 	c.Res.Distribution["known-a:"+sigHeadBeforeBatch] += r.nKnownA
 	c.Res.Distribution["known-b:"+sigCanonBeforeHead] += r.nKnownB
 	c.Sample(map[string]interface{}{"scenario": sc.Name, "config": cfg, "blocks": len(sc.Nodes) - 1, "ops": len(sc.Ops), "write_records": len(L), "prefixes_reopened": r.nreopen,
@@ -807,6 +837,14 @@ func (r *c04Run) failingWrites(idx []int, jobDir string) {
 					c.Count("failwrite-process-continued:" + r.cfg)
 					extra2 := map[string]interface{}{"fail_write": n, "failed_record": extra["failed_record"], "note": "prefix counts the records of the log the process wrote after the failed write was dropped"}
 					r.checkPrefix(cl.L, cl.OpOf, len(cl.L), prefixOpts{label: fmt.Sprintf("w%d-after", n), converge: true, closure: true, extra: extra2})
+					// ... and every crash point of that continued run: the process swallowed (or returned) the
+					// error and went on writing; dying at any later write boundary must still keep the guarantees
+					// (in particular: a block InsertChain reported as imported is the head after a restart)
+					if len(cl.L) <= 64 || c.Thorough() {
+						for p := n; p < len(cl.L); p++ {
+							r.checkPrefix(cl.L, cl.OpOf, p, prefixOpts{label: fmt.Sprintf("w%d-after-p%d", n, p), closure: true, extra: extra2})
+						}
+					}
 				} else if derr == nil && res.out.TreeHash != treeHash {
 					c.Note("child built a different tree (%s vs %s): post-failure log ignored", res.out.TreeHash, treeHash)
 				}
@@ -1010,11 +1048,24 @@ func MainC04() {
 		return
 	}
 
+	if os.Getenv("C04_ONLY") == "big" {
+		c04RunScenario(c, c04BigState(), "archive", c04Plan{convEvery: 8, closureEvery: 1, prefixEvery: 1}, jobDir)
+		trieVerdict()
+		c.Finish()
+		return
+	}
 	// (1) the scripted tree: every prefix, every step on every prefix
-	c04RunScenario(c, c04Scripted(), "archive", c04Plan{convEvery: 1, closureEvery: 1, prefixEvery: 1, failEvery: c.Scale(7, 1)}, jobDir)
+	c04RunScenario(c, c04Scripted(), "archive", c04Plan{convEvery: 1, closureEvery: 1, prefixEvery: 1, failEvery: c.Scale(0, 1)}, jobDir)
+	// (1b) a state big enough that ONE trie commit is split over several batch flushes: every prefix,
+	// closure (root => full iteration; every node => its children) on every prefix; archive import and pruning Stop()
+	c04RunScenario(c, c04BigState(), "archive", c04Plan{convEvery: 4, closureEvery: 1, prefixEvery: 1, failEvery: c.Scale(0, 1)}, jobDir)
+	c04RunScenario(c, c04BigState(), "pruning-1-5m", c04Plan{convEvery: 4, closureEvery: 1, prefixEvery: 1, failEvery: c.Scale(0, 1)}, jobDir)
+	// (1c) exhaustive failing-write sweep: every write of one short archive import and of one pruning import + Stop()
+	c04RunScenario(c, c04Short(), "archive", c04Plan{convEvery: 1, closureEvery: 1, prefixEvery: 1, failEvery: 1}, jobDir)
+	c04RunScenario(c, c04Short(), "pruning-1-5m", c04Plan{convEvery: 1, closureEvery: 1, prefixEvery: 1, failEvery: 1}, jobDir)
 	if !c.Thorough() {
 		sc := c04Normalise(RandomScenario(c.Rng.Fork(), "C02", fmt.Sprintf("seed%d-tree0", c.Seed), 14+c.Rng.Intn(12)))
-		c04RunScenario(c, sc, "archive", c04Plan{convEvery: 4, closureEvery: 3, prefixEvery: 1, failEvery: 7}, jobDir)
+		c04RunScenario(c, sc, "archive", c04Plan{convEvery: 4, closureEvery: 3, prefixEvery: 1, failEvery: 0}, jobDir)
 		c04RunScenario(c, c04Scripted(), "pruning-0-0", c04Plan{convEvery: 2, closureEvery: 1, prefixEvery: 1}, jobDir)
 	} else {
 		c04RunScenario(c, c04Scripted(), "pruning-0-0", c04Plan{convEvery: 1, closureEvery: 1, prefixEvery: 1, failEvery: 1}, jobDir)
